@@ -11,6 +11,7 @@
 #define LIBC_SAFETY_ABSTRACTION 1
 #include "libc.h"
 #include "text_contracts.h"
+#include "tok_contracts.h"
 #include "line_contracts.h"
 void h_str_to_instr(void) {
   struct instr *I; const char *s; int *rl;
